@@ -91,7 +91,7 @@ pub fn report_flags(ctx: &mut Ctx) {
 }
 
 pub fn run(ctx: &mut Ctx, prop: &str) {
-    ctx.rule = "seeded generator over the statement AST (all five statement kinds, sub-queries in FROM / IN / EXISTS / CTEs / set operations, CASE, value lists, templates, LIMIT/OFFSET, window frames, upsert, RETURNING, every modelled value variant) x 3 backends; each recipe is built through the public API, rendered by build / to_string / build_any / build_collect* and compared with the Lean statement model; the property's relations are evaluated on the crate's output with independent reference lexers".into();
+    ctx.rule = "seeded generator over the statement AST (all five statement kinds, sub-queries in FROM / IN / EXISTS / CTEs / set operations, CASE, value lists, templates, LIMIT/OFFSET, window frames, upsert, RETURNING, every modelled value variant) x 3 backends; each recipe is built through the public API, rendered by build / to_string / build_any / build_collect* and compared with the Lean statement model; the property's relations are evaluated on the crate's output with independent reference lexers; convenience builder methods are compared with their general forms (same statement, same text, same values)".into();
     let n = if ctx.tier_thorough { 60000 } else { 6000 };
     let mut rng = ctx.rng.fork();
     for i in 0..n {
@@ -177,4 +177,7 @@ pub fn run(ctx: &mut Ctx, prop: &str) {
             Err(e) => ctx.oracle_fail("substitution failed", serde_json::json!({"class": class, "backend": b.name(), "recipe": recipe, "build": r.sql, "error": e})),
         }
     }
+    // the builder's convenience methods (and_where_option, the ON CONFLICT where-adders, setters called twice, ..) must build
+    // what their general forms build: the generator above only calls the general forms
+    crate::api::run(ctx);
 }
